@@ -36,10 +36,21 @@ impl NetworkService<NetCfg> for StubNet {
         if let Object::Engine(e) = object {
             self.0.shared.handled.lock().unwrap()[self.0.idx].push(e.rpm);
         }
+        // commands that arrive through a client session (scenario `via_session`) are motion commands
+        match object {
+            Object::Motion(glonax::core::Motion::StraightDrive(v)) => self.0.shared.handled.lock().unwrap()[self.0.idx].push(*v as u16),
+            Object::Motion(glonax::core::Motion::StopAll) => self.0.shared.handled.lock().unwrap()[self.0.idx].push(9999),
+            _ => {}
+        }
         // the handler is "slow": it finishes only when the harness grants a permit
         self.0.shared.gates[self.0.idx].acquire().await.unwrap().forget();
         if let Object::Engine(e) = object {
             self.0.shared.completed.lock().unwrap()[self.0.idx].push(e.rpm);
+        }
+        match object {
+            Object::Motion(glonax::core::Motion::StraightDrive(v)) => self.0.shared.completed.lock().unwrap()[self.0.idx].push(*v as u16),
+            Object::Motion(glonax::core::Motion::StopAll) => self.0.shared.completed.lock().unwrap()[self.0.idx].push(9999),
+            _ => {}
         }
     }
 }
@@ -154,6 +165,73 @@ fn scenario_full(out: &mut Out, networks: usize, acts: &[Act], nontrivial: bool,
     out.case(&format!("bus {} {}", networks, line.0), &line.1, nontrivial);
 }
 
+/// The producer is a real client session (`UnixServer` session task on a scripted transport) holding the runtime's
+/// command sender: `burst` drive commands and a final stop-all arrive in one read while network 0's handler is held.
+/// Emitted in the ordinary `bus` format: the sends are the frames, in order (ids = the drive values, 9999 = stop-all).
+fn via_session(out: &mut Out, networks: usize, burst: usize) {
+    let rt = tokio::runtime::Builder::new_current_thread().enable_all().build().unwrap();
+    let shared = Arc::new(Shared {
+        handled: Mutex::new(vec![vec![]; networks]),
+        completed: Mutex::new(vec![vec![]; networks]),
+        gates: (0..networks).map(|_| Arc::new(Semaphore::new(0))).collect(),
+        sender: Mutex::new(None),
+    });
+    let line = rt.block_on(async {
+        let mut runtime = glonax::Runtime::default();
+        runtime.schedule_io_sub_service::<Prod, ProdCfg>(ProdCfg(shared.clone()));
+        for i in 0..networks {
+            runtime.schedule_net_service::<StubNet, NetCfg>(NetCfg { idx: i, shared: shared.clone() }, Duration::from_secs(3600));
+        }
+        settle().await;
+        let tx = shared.sender.lock().unwrap().clone().expect("producer got the command sender");
+        // every network but the first keeps up
+        for g in shared.gates.iter().skip(1) {
+            g.add_permits(100_000);
+        }
+        let mut bytes = vec![];
+        let mut toks = vec![];
+        for i in 0..burst {
+            let v = 100 + i as i16;
+            let vb = v.to_be_bytes();
+            bytes.extend(crate::sess::frame(0x20, &[0x05, vb[0], vb[1]]));
+            toks.push(format!("s:{}", v));
+        }
+        bytes.extend(crate::sess::frame(0x20, &[0x00]));
+        toks.push("s:9999".to_string());
+        let (_sig_tx, sig_rx) = tokio::sync::broadcast::channel::<Object>(16);
+        let session = tokio::spawn(glonax::service::UnixServer::verif_client_session(crate::sess::Transport::preloaded(bytes), tx.clone(), sig_rx));
+        settle().await;
+        settle().await;
+        // what each network has taken so far, then everything is released
+        {
+            let h = shared.handled.lock().unwrap();
+            for i in 0..networks {
+                if !h[i].is_empty() {
+                    toks.push(format!("r:{}:{}", i, h[i].len()));
+                }
+            }
+        }
+        let seen: Vec<usize> = shared.handled.lock().unwrap().iter().map(|l| l.len()).collect();
+        shared.gates[0].add_permits(100_000);
+        settle().await;
+        settle().await;
+        {
+            let h = shared.handled.lock().unwrap();
+            for i in 0..networks {
+                if h[i].len() > seen[i] {
+                    toks.push(format!("r:{}:{}", i, h[i].len() - seen[i]));
+                }
+            }
+        }
+        session.abort();
+        let h = shared.handled.lock().unwrap();
+        let lists: Vec<String> = h.iter().map(|l| if l.is_empty() { "-".to_string() } else { l.iter().map(|x| x.to_string()).collect::<Vec<_>>().join(",") }).collect();
+        (toks.join(" "), lists.join(";"))
+    });
+    out.case(&format!("bus {} {}", networks, line.0), &line.1, true);
+    out.count("commands through a real client session");
+}
+
 pub fn run(out: &mut Out, tier: &str, rng: &mut Rng) {
     let thorough = tier == "thorough";
     out.rule = "the real Runtime::schedule_net_service command task(s) (1..3 networks) fed by the real CommandSender obtained through a scheduled producer service; handlers are held back by permits so that producers outrun them: bursts of 1..64 (quick) / 1..200 (thorough) commands sent while a handler is blocked, released at scripted points, interleaved with further sends; random schedules. Observed: the ordered list of commands each network's on_command received. Non-trivial = some burst exceeds the queue capacity of 16".into();
@@ -184,6 +262,10 @@ pub fn run(out: &mut Out, tier: &str, rng: &mut Rng) {
             acts.push(Act::Release(0, 1));
             scenario_at(out, networks, &acts, true, true);
             out.count("commands right after scheduling");
+        }
+        // the producer is a real client session
+        for burst in [1usize, 15, 16, 17, 19, 40] {
+            via_session(out, networks, burst);
         }
         // handlers that take longer than a control cycle (5 ms cycles, 20 ms pass after every act while they are held)
         for burst in [1usize, 3, 6] {
